@@ -51,6 +51,9 @@ func (f *Ash) Call(s *slip.Scope, args slip.List, depth int) (result slip.Object
 		slip.TypePanic(s, depth, "shift", args[1], "fixnum")
 	}
 	sh := int(shift)
+	if slip.ArrayMaxDimension < sh {
+		slip.ErrorPanic(s, depth, "shift of %d is too large", sh)
+	}
 	switch ti := args[0].(type) {
 	case slip.Fixnum:
 		if sh < 0 {
